@@ -615,81 +615,147 @@ pub open spec fn hinv<T>(h: H<T>) -> bool {
     &&& (h.ever_closed ==> closed(h.a))
 }
 
-pub proof fn lemma_hstep_preserves<T>(h: H<T>, op: HOp<T>)
+/// what one step must preserve / guarantee (shared by the per-operation lemmas below)
+pub open spec fn hstep_ok<T>(h: H<T>, n: H<T>) -> bool {
+    &&& hinv(n)
+    // delivered only ever grows, by the head of the logical order or by a value just accepted (hand-off)
+    &&& h.delivered.is_prefix_of(n.delivered)
+    // C10: after close nothing is delivered and nothing changes
+    &&& (closed(h.a) ==> n.delivered =~= h.delivered && aeq(n.a, h.a))
+}
+
+pub proof fn lemma_hstep_send<T>(h: H<T>, d: T)
     requires hinv(h),
-    ensures hinv(hstep(h, op)),
-        // delivered only ever grows, by the head of the logical order or by a value just accepted (hand-off)
-        h.delivered.is_prefix_of(hstep(h, op).delivered),
-        // C10: after close nothing is delivered and nothing changes
-        closed(h.a) ==> hstep(h, op).delivered =~= h.delivered && aeq(hstep(h, op).a, h.a),
+    ensures hstep_ok(h, hstep(h, HOp::Send(d))),
+{
+    let a = h.a;
+    let n = hstep(h, HOp::Send(d));
+    lemma_L_FIFO(a, d, arbitrary());
+    if ref_send_class(a) is Buffered {
+        assert(logical(n.a) =~= logical(a).push(d));
+        assert(n.live =~= n.delivered + logical(n.a));
+    } else if ref_send_class(a) is Handoff {
+        assert(logical(a).len() == 0);
+        assert(logical(n.a).len() == 0);
+        assert(n.live =~= n.delivered + logical(n.a));
+    }
+}
+pub proof fn lemma_hstep_send_register<T>(h: H<T>, t: SignalTerminator<T>)
+    requires hinv(h),
+    ensures hstep_ok(h, hstep(h, HOp::SendRegister(t))),
+{
+    let a = h.a;
+    let n = hstep(h, HOp::SendRegister(t));
+    if ref_send_class(a) is Full && a.sc != 0 {
+        lemma_L_FIFO(a, payload(t), t);
+        assert(logical(n.a) =~= logical(a).push(payload(t)));
+        assert(n.live =~= n.delivered + logical(n.a));
+    }
+}
+pub proof fn lemma_hstep_recv<T>(h: H<T>)
+    requires hinv(h),
+    ensures hstep_ok(h, hstep(h, HOp::Recv)),
+{
+    let a = h.a;
+    let n = hstep(h, HOp::<T>::Recv);
+    lemma_L_FIFO(a, arbitrary(), arbitrary());
+    if let Some(v) = ref_recv_value(a) {
+        assert(logical(n.a) =~= logical(a).skip(1));
+        assert(v == logical(a)[0]);
+        assert(n.delivered + logical(n.a) =~= h.delivered + logical(a));
+    }
+}
+pub proof fn lemma_hstep_recv_register<T>(h: H<T>, t: SignalTerminator<T>)
+    requires hinv(h),
+    ensures hstep_ok(h, hstep(h, HOp::RecvRegister(t))),
+{
+    assert(logical(hstep(h, HOp::RecvRegister(t)).a) =~= logical(h.a));
+}
+#[verifier::rlimit(40)]
+pub proof fn lemma_hstep_cancel_sender<T>(h: H<T>, i: int)
+    requires hinv(h),
+    ensures hstep_ok(h, hstep(h, HOp::CancelSender(i))),
 {
     let a = h.a;
     let m = |t: SignalTerminator<T>| payload(t);
-    let n = hstep(h, op);
+    let n = hstep(h, HOp::<T>::CancelSender(i));
+    if 0 <= i < a.s.len() {
+        let ps = a.s.map_values(m);
+        assert(a.s.remove(i).map_values(m) =~= ps.remove(i));
+        assert(logical(a) =~= a.q + ps);
+        assert(logical(n.a) =~= a.q + ps.remove(i));
+        assert((a.q + ps).remove(a.q.len() + i) =~= a.q + ps.remove(i));
+        assert(h.live =~= h.delivered + (a.q + ps));
+        assert((h.delivered + (a.q + ps)).remove(h.delivered.len() + a.q.len() + i) =~= h.delivered + (a.q + ps.remove(i)));
+        assert(n.live =~= n.delivered + logical(n.a));
+    }
+}
+pub proof fn lemma_hstep_cancel_receiver<T>(h: H<T>, i: int)
+    requires hinv(h),
+    ensures hstep_ok(h, hstep(h, HOp::CancelReceiver(i))),
+{
+    assert(logical(hstep(h, HOp::<T>::CancelReceiver(i)).a) =~= logical(h.a));
+}
+pub proof fn lemma_hstep_close<T>(h: H<T>)
+    requires hinv(h),
+    ensures hstep_ok(h, hstep(h, HOp::Close)),
+{
+    let n = hstep(h, HOp::<T>::Close);
+    if !closed(h.a) {
+        assert(logical(n.a).len() == 0);
+        assert(n.live =~= n.delivered + logical(n.a));
+    }
+}
+pub proof fn lemma_hstep_clone<T>(h: H<T>)
+    requires hinv(h),
+    ensures hstep_ok(h, hstep(h, HOp::CloneSender)), hstep_ok(h, hstep(h, HOp::CloneReceiver)),
+{
+    assert(logical(hstep(h, HOp::<T>::CloneSender).a) =~= logical(h.a));
+    assert(logical(hstep(h, HOp::<T>::CloneReceiver).a) =~= logical(h.a));
+}
+pub proof fn lemma_hstep_drop_sender<T>(h: H<T>)
+    requires hinv(h),
+    ensures hstep_ok(h, hstep(h, HOp::DropSender)),
+{
+    let a = h.a;
+    let n = hstep(h, HOp::<T>::DropSender);
+    if a.sc == 1 && a.rc != 0 {
+        assert(logical(n.a) =~= a.q);
+        assert(n.live =~= n.delivered + logical(n.a));
+    } else {
+        assert(logical(n.a) =~= logical(a));
+    }
+}
+pub proof fn lemma_hstep_drop_receiver<T>(h: H<T>)
+    requires hinv(h),
+    ensures hstep_ok(h, hstep(h, HOp::DropReceiver)),
+{
+    let a = h.a;
+    let n = hstep(h, HOp::<T>::DropReceiver);
+    if a.rc == 1 && a.sc != 0 {
+        assert(logical(n.a) =~= a.q);
+        assert(n.live =~= n.delivered + logical(n.a));
+    } else {
+        assert(logical(n.a) =~= logical(a));
+    }
+}
+
+pub proof fn lemma_hstep_preserves<T>(h: H<T>, op: HOp<T>)
+    requires hinv(h),
+    ensures hstep_ok(h, hstep(h, op)),
+{
     match op {
-        HOp::Send(d) => {
-            lemma_L_FIFO(a, d, arbitrary());
-            if ref_send_class(a) is Buffered {
-                assert(logical(n.a) =~= logical(a).push(d));
-                assert(n.live =~= n.delivered + logical(n.a));
-            } else if ref_send_class(a) is Handoff {
-                assert(logical(a).len() == 0);
-                assert(logical(n.a).len() == 0);
-                assert(n.live =~= n.delivered + logical(n.a));
-            }
-        }
-        HOp::SendRegister(t) => {
-            if ref_send_class(a) is Full && a.sc != 0 {
-                lemma_L_FIFO(a, payload(t), t);
-                assert(logical(n.a) =~= logical(a).push(payload(t)));
-                assert(n.live =~= n.delivered + logical(n.a));
-            }
-        }
-        HOp::Recv => {
-            lemma_L_FIFO(a, arbitrary(), arbitrary());
-            if let Some(v) = ref_recv_value(a) {
-                assert(logical(n.a) =~= logical(a).skip(1));
-                assert(v == logical(a)[0]);
-                assert(n.delivered + logical(n.a) =~= h.delivered + logical(a));
-            }
-        }
-        HOp::RecvRegister(t) => {
-            assert(logical(n.a) =~= logical(a));
-        }
-        HOp::CancelSender(i) => {
-            if 0 <= i < a.s.len() {
-                assert(a.s.remove(i).map_values(m) =~= a.s.map_values(m).remove(i));
-                assert(logical(n.a) =~= logical(a).remove(a.q.len() + i));
-                assert(n.live =~= n.delivered + logical(n.a));
-            }
-        }
-        HOp::CancelReceiver(i) => {
-            assert(logical(n.a) =~= logical(a));
-        }
-        HOp::Close => {
-            if !closed(a) {
-                assert(logical(n.a).len() == 0);
-                assert(n.live =~= n.delivered + logical(n.a));
-            }
-        }
-        HOp::CloneSender => { assert(logical(n.a) =~= logical(a)); }
-        HOp::CloneReceiver => { assert(logical(n.a) =~= logical(a)); }
-        HOp::DropSender => {
-            if a.sc == 1 && a.rc != 0 {
-                assert(logical(n.a) =~= a.q);
-                assert(n.live =~= n.delivered + logical(n.a));
-            } else {
-                assert(logical(n.a) =~= logical(a));
-            }
-        }
-        HOp::DropReceiver => {
-            if a.rc == 1 && a.sc != 0 {
-                assert(logical(n.a) =~= a.q);
-                assert(n.live =~= n.delivered + logical(n.a));
-            } else {
-                assert(logical(n.a) =~= logical(a));
-            }
-        }
+        HOp::Send(d) => lemma_hstep_send(h, d),
+        HOp::SendRegister(t) => lemma_hstep_send_register(h, t),
+        HOp::Recv => lemma_hstep_recv(h),
+        HOp::RecvRegister(t) => lemma_hstep_recv_register(h, t),
+        HOp::CancelSender(i) => lemma_hstep_cancel_sender(h, i),
+        HOp::CancelReceiver(i) => lemma_hstep_cancel_receiver(h, i),
+        HOp::Close => lemma_hstep_close(h),
+        HOp::CloneSender => lemma_hstep_clone(h),
+        HOp::CloneReceiver => lemma_hstep_clone(h),
+        HOp::DropSender => lemma_hstep_drop_sender(h),
+        HOp::DropReceiver => lemma_hstep_drop_receiver(h),
     }
 }
 
